@@ -3671,6 +3671,132 @@ func (c *Ctx) checkSuspensionVisitsEveryTopic() {
 			"the Range callback can return false: the walk over the hub's topics ends there and the remaining topics of the suspended user stay writable")
 	}
 	r.Check(n >= 1, rule, "Range callbacks that mark topics read-only", "-", fmt.Sprintf("%d", n), "none: anchor lost")
+	c.checkSuspensionCoversOwnedTopics()
+}
+
+// checkSuspensionCoversOwnedTopics (C03): a suspended user's own group topics reject publishes: in
+// the function that marks topics read-only, the test `topic.owner == uid` (a) leads to markReadOnly
+// on its true edge without a further condition and (b) is reached for a topic that is not p2p (it
+// is not nested under the p2p test - `p2p && (member || owner)` never marks a group).
+func (c *Ctx) checkSuspensionCoversOwnedTopics() {
+	r := c.R
+	const rule = "C03.8b-suspension-covers-owned-topics"
+	mark := c.method("server", "Topic", "markReadOnly")
+	ownerF := c.E().topicField("owner")
+	catF := c.E().topicField("cat")
+	p2p := c.konst("server/store/types", "TopicCatP2P")
+	if mark == nil || ownerF == nil || catF == nil || p2p == nil {
+		return
+	}
+	n := 0
+	for _, fn := range c.P.ModFuncs {
+		if !core.InPkg(fn, "server") {
+			continue
+		}
+		isMark := func(in ssa.Instruction) bool {
+			call, ok := in.(*ssa.Call)
+			return ok && core.CalleeOf(&call.Call) == mark
+		}
+		has := false
+		core.AllInstrs(fn, func(in ssa.Instruction) {
+			if isMark(in) {
+				has = true
+			}
+		})
+		// or a selection predicate of the marking function (`if topic.stateFollowsUser(uid) { topic.markReadOnly(..) }`)
+		predicate := false
+		if !has && fn.Signature.Results().Len() == 1 {
+			if b, ok := fn.Signature.Results().At(0).Type().Underlying().(*types.Basic); ok && b.Kind() == types.Bool {
+				for _, cs := range c.callersOf(fn) {
+					marks := false
+					core.AllInstrs(cs.Caller, func(in ssa.Instruction) {
+						if isMark(in) {
+							marks = true
+						}
+					})
+					if marks {
+						predicate = true
+					}
+				}
+			}
+		}
+		if !has && !predicate {
+			continue
+		}
+		gOwner := core.EqGuard("topic.owner==uid", core.IsFieldLoad(ownerF), func(v ssa.Value) bool {
+			nm, ok := v.Type().(*types.Named)
+			return ok && nm.Obj().Name() == "Uid"
+		}, true)
+		pass, cnt := core.GuardEdges(fn, gOwner)
+		// a predicate may return the comparison itself (`return t.owner == uid`)
+		var ownerRets []ssa.Instruction
+		core.AllInstrs(fn, func(in ssa.Instruction) {
+			ret, ok := in.(*ssa.Return)
+			if !ok || len(ret.Results) != 1 {
+				return
+			}
+			var has func(v ssa.Value, d int) bool
+			has = func(v ssa.Value, d int) bool {
+				switch x := v.(type) {
+				case *ssa.BinOp:
+					return x.Op == token.EQL && (core.IsFieldLoad(ownerF)(x.X) || core.IsFieldLoad(ownerF)(x.Y))
+				case *ssa.Phi:
+					if d < 3 {
+						for _, e := range x.Edges {
+							if has(e, d+1) {
+								return true
+							}
+						}
+					}
+				}
+				return false
+			}
+			if has(ret.Results[0], 0) {
+				ownerRets = append(ownerRets, in)
+			}
+		})
+		if cnt[0] == 0 && len(ownerRets) == 0 {
+			// the selection may sit in a predicate (`topic.stateFollowsUser(uid)`): examined there
+			continue
+		}
+		n++
+		r.Func(fk(fn))
+		// (a) the owner edge reaches the marking
+		if !predicate && cnt[0] > 0 {
+			miss, w := core.PathFromEdgeAvoiding(fn, pass, core.IsReturn, isMark, nil)
+			r.Check(!miss, rule, fk(fn)+": owner == uid leads to markReadOnly", c.P.Pos(fn.Pos()), "",
+				"a topic owned by the suspended user can leave the function"+posOf(c, w)+" without being marked read-only")
+		}
+		// (b) the owner test is reached for a topic that is not p2p
+		notP2P := core.FailEdges(fn, core.EqGuard("cat==P2P", core.IsFieldLoad(catF), core.IsConstOf(p2p), true))
+		cut := map[core.Edge]bool{}
+		p2pTrue, _ := core.GuardEdges(fn, core.EqGuard("cat==P2P", core.IsFieldLoad(catF), core.IsConstOf(p2p), true))
+		for e := range p2pTrue {
+			cut[e] = true
+		}
+		_ = notP2P
+		isOwnerTest := func(in ssa.Instruction) bool {
+			for _, o := range ownerRets {
+				if o == in {
+					return true
+				}
+			}
+			ifi, ok := in.(*ssa.If)
+			if !ok {
+				return false
+			}
+			for e := range pass {
+				if len(e.From.Instrs) > 0 && e.From.Instrs[len(e.From.Instrs)-1] == ssa.Instruction(ifi) {
+					return true
+				}
+			}
+			return false
+		}
+		reach, _ := core.PathAvoiding(fn, nil, isOwnerTest, nil, cut)
+		r.Check(reach, rule, fk(fn)+": the owner test is reached for a topic that is not p2p", c.P.Pos(fn.Pos()), "",
+			"the owner test is only reached on the p2p edge: a group topic owned by the suspended user is never marked read-only and keeps accepting publishes")
+	}
+	r.Check(n >= 1, rule, "functions that select the topics of a suspended user by owner", "-", fmt.Sprintf("%d", n), "none: anchor lost")
 }
 
 // checkAttachmentLoopVisitsEveryEntry (C16): the loops that turn the attachment URLs of a message
@@ -4002,4 +4128,765 @@ func (c *Ctx) checkQueryBoundsOneToOne() {
 		}
 	}
 	r.Check(n >= 2, rule, "query bounds filled from the request", "-", fmt.Sprintf("%d", n), "fewer than two: anchor lost")
+}
+
+// checkFailureReplyCarriesTheFailure (C13): inside the failure branch of a step (`rec, err := f();
+// if err != nil { ... }`) the reply built from an error (decodeStoreError*) is built from that
+// step's error, or from an error that cannot be nil - not from a variable that the clean-up in the
+// branch has reassigned (`if err = undo(); err != nil { log }` followed by decodeStoreError(err)):
+// when the clean-up succeeds the failed request is answered 200.
+func (c *Ctx) checkFailureReplyCarriesTheFailure() {
+	r := c.R
+	const rule = "C13.4e-failure-reply-carries-the-failure"
+	errT := types.Universe.Lookup("error").Type()
+	n := 0
+	for _, fn := range c.P.ModFuncs {
+		if !core.InPkg(fn, "server") {
+			continue
+		}
+		core.AllInstrs(fn, func(in ssa.Instruction) {
+			call, ok := in.(*ssa.Call)
+			if !ok {
+				return
+			}
+			g := call.Call.StaticCallee()
+			if g == nil || !strings.HasPrefix(g.Name(), "decodeStoreError") || len(call.Call.Args) == 0 {
+				return
+			}
+			arg := call.Call.Args[0]
+			if !types.Identical(arg.Type(), errT) {
+				return
+			}
+			// the failure branches this reply sits in: dominating `E != nil` tests taken on the non-nil edge
+			var failed []ssa.Value
+			for b := call.Block(); b != nil; b = b.Idom() {
+				d := b.Idom()
+				if d == nil || len(d.Instrs) == 0 {
+					continue
+				}
+				ifi, isIf := d.Instrs[len(d.Instrs)-1].(*ssa.If)
+				if !isIf {
+					continue
+				}
+				a := core.NormCond(ifi.Cond)
+				if a.Op != token.EQL {
+					continue
+				}
+				var e ssa.Value
+				switch {
+				case core.IsNil(a.Y) && types.Identical(a.X.Type(), errT):
+					e = a.X
+				case core.IsNil(a.X) && types.Identical(a.Y.Type(), errT):
+					e = a.Y
+				}
+				if e == nil {
+					continue
+				}
+				// the edge on which e != nil: the true edge when the atom `e == nil` is negated
+				idx := 1
+				if a.Negated {
+					idx = 0
+				}
+				if idx < len(d.Succs) && d.Succs[idx].Dominates(call.Block()) && len(d.Succs[idx].Preds) == 1 {
+					failed = append(failed, e)
+				}
+			}
+			if len(failed) == 0 {
+				return
+			}
+			n++
+			r.Func(fk(fn))
+			ok2 := false
+			for _, e := range failed {
+				if arg == e {
+					ok2 = true
+				}
+			}
+			if known, isNil := errorsNewNonNil(arg); known && !isNil {
+				ok2 = true
+			}
+			if _, isG := loadedGlobal(arg); isG {
+				ok2 = true
+			}
+			if mi, isMI := arg.(*ssa.MakeInterface); isMI {
+				_ = mi
+				ok2 = true // a concrete error value (types.ErrPolicy and the like)
+			}
+			construct := fmt.Sprintf("%s: the reply in a failure branch is built from the failure", fk(fn))
+			if k := countSame(r, rule, construct); k > 0 {
+				construct = fmt.Sprintf("%s #%d", construct, k+1)
+			}
+			r.Check(ok2, rule, construct, c.pos(call), "",
+				"the reply to a failed step is built from an error variable that was reassigned inside the failure branch (by the clean-up): when the clean-up succeeds the variable is nil and the failed request is answered 200")
+		})
+	}
+	r.Check(n >= 3, rule, "error replies built inside failure branches", "-", fmt.Sprintf("%d", n), "fewer than three: anchor lost")
+}
+
+// checkParseAcsReadsWholeText (C05): "text with unknown letters is rejected" holds only if ParseAcs
+// looks at every byte. It may leave its scanning loop early for 'N' (none cannot be combined with
+// anything), but then nothing may follow: every path to the success return passes an edge on which a
+// comparison `x < len(text)` is false - the loop's own exit, or an explicit "nothing follows" test.
+func (c *Ctx) checkParseAcsReadsWholeText() {
+	r := c.R
+	const rule = "C05.1c-parse-reads-the-whole-text"
+	fn := c.ssaFn("server/store/types", "ParseAcs")
+	if fn == nil || len(fn.Params) == 0 {
+		return
+	}
+	r.Func(fk(fn))
+	text := fn.Params[0]
+	isLen := isLenOf(func(v ssa.Value) bool { return core.Strip(v) == ssa.Value(text) })
+	g := core.LessGuard("x < len(text)", core.Any, isLen, false)
+	ei := errIndex(fn.Signature)
+	n := 0
+	core.AllInstrs(fn, func(in ssa.Instruction) {
+		ret, ok := in.(*ssa.Return)
+		if !ok || ei < 0 || !core.IsNil(core.Strip(ret.Results[ei])) {
+			return
+		}
+		n++
+		saved := core.NoLift
+		core.NoLift = true
+		okG, cnt := core.GuardedBy(fn, ret, g)
+		core.NoLift = saved
+		r.Check(okG && cnt[0] > 0, rule, fmt.Sprintf("%s: success return #%d only with the whole text read", fk(fn), n), c.pos(ret), "",
+			"the parser can return success while part of the text was not looked at (it leaves the scanning loop early without testing that nothing follows): letters or junk after that point are accepted silently")
+		// "" must stay distinguishable from "N": the unset marker lies outside the permission bits, so the
+		// parsed value is returned as accumulated - masking it (the callers mask after their unset test)
+		// turns "no change" into "no access"
+		masked := false
+		if b, isB := ret.Results[0].(*ssa.BinOp); isB && b.Op == token.AND {
+			_, kx := b.X.(*ssa.Const)
+			_, ky := b.Y.(*ssa.Const)
+			masked = kx || ky
+		}
+		r.Check(!masked, "C05.1d-parse-keeps-the-unset-marker", fmt.Sprintf("%s: success return #%d yields the accumulated value unmasked", fk(fn), n), c.pos(ret), "",
+			"ParseAcs masks its result with a constant: the unset marker is lost, the empty string parses as 'N' and an absent mode resets the target to no access")
+	})
+	r.Check(n >= 1, rule, "success returns of ParseAcs", "-", fmt.Sprintf("%d", n), "none: anchor lost")
+}
+
+// checkRingKeyedByRoutableName (C17, C02): the ring is asked about names as they are routed -
+// "usrXXX" for a user's own topics - on every node and at every site; a site that asks with the bare
+// id (Uid.String()) hashes a different string and can place a user on another node than the sites
+// that route the request. Every argument of Cluster.isRemoteTopic / Cluster.nodeForTopic / Ring.Get
+// that is rendered from a Uid is rendered with Uid.UserId().
+func (c *Ctx) checkRingKeyedByRoutableName(rule string) {
+	r := c.R
+	isRemote := c.method("server", "Cluster", "isRemoteTopic")
+	nodeFor := c.method("server", "Cluster", "nodeForTopic")
+	ringGet := c.method("server/ringhash", "Ring", "Get")
+	userID := c.method("server/store/types", "Uid", "UserId")
+	if isRemote == nil || nodeFor == nil || ringGet == nil || userID == nil {
+		return
+	}
+	n := 0
+	for _, fn := range c.P.ModFuncs {
+		if !core.InPkg(fn, "server") {
+			continue
+		}
+		core.AllInstrs(fn, func(in ssa.Instruction) {
+			call, ok := in.(*ssa.Call)
+			if !ok {
+				return
+			}
+			f := core.CalleeOf(&call.Call)
+			if f != isRemote && f != nodeFor && f != ringGet {
+				return
+			}
+			args := call.Call.Args
+			arg := args[len(args)-1]
+			ac, isCall := core.Strip(arg).(*ssa.Call)
+			if !isCall {
+				return
+			}
+			g := core.CalleeOf(&ac.Call)
+			if g == nil {
+				return
+			}
+			sig, _ := g.Type().(*types.Signature)
+			if sig == nil || sig.Recv() == nil {
+				return
+			}
+			if nm, ok := sig.Recv().Type().(*types.Named); !ok || nm.Obj().Name() != "Uid" {
+				return
+			}
+			n++
+			r.Func(fk(fn))
+			construct := fmt.Sprintf("%s: %s asked with the user's routable name", fk(fn), f.Name())
+			if k := countSame(r, rule, construct); k > 0 {
+				construct = fmt.Sprintf("%s #%d", construct, k+1)
+			}
+			r.Check(g == userID, rule, construct, c.pos(call), "",
+				fmt.Sprintf("the ring is asked about a user with Uid.%s() while requests for that user are routed by Uid.UserId(): the two spellings hash to different nodes, so the local/remote decision disagrees with where the request goes", g.Name()))
+		})
+	}
+	r.Check(n >= 5, rule, "ring lookups by a user's name", "-", fmt.Sprintf("%d", n), "fewer than five: anchor lost")
+}
+
+// checkCachedTagsAreStoredTags (C08): after a tag update the live topic holds the list that was
+// written: the value assigned to Topic.tags in the function that writes a "Tags" key to the store
+// is the value written under that key (the normalised list), not the request's raw list.
+func (c *Ctx) checkCachedTagsAreStoredTags() {
+	r := c.R
+	const rule = "C08.3d-cached-tags-are-the-stored-tags"
+	tagsF := c.E().topicField("tags")
+	if tagsF == nil {
+		return
+	}
+	n := 0
+	for _, fn := range c.P.ModFuncs {
+		if !core.InPkg(fn, "server") || fn.Parent() != nil || !isPtrToNamedRecv(fn, "Topic") {
+			continue
+		}
+		stores := core.StoresToField(fn, tagsF)
+		if len(stores) == 0 {
+			continue
+		}
+		// the values written to the store under "Tags" in this function or a helper it calls
+		var written []ssa.Value
+		collect := func(g *ssa.Function) {
+			for _, sink := range c.storeWriteSinks(g) {
+				call, ok := sink.(*ssa.Call)
+				if !ok {
+					continue
+				}
+				for _, a := range call.Call.Args {
+					for k, vs := range mapLiteralKeys(a) {
+						if k == "Tags" {
+							written = append(written, vs...)
+						}
+					}
+				}
+			}
+		}
+		collect(fn)
+		core.AllInstrs(fn, func(in ssa.Instruction) {
+			if call, ok := in.(*ssa.Call); ok {
+				if g := call.Call.StaticCallee(); g != nil && g != fn && core.InPkg(g, "server") && len(g.Blocks) > 0 {
+					before := len(written)
+					collect(g)
+					// a helper that receives the list: what is written is its parameter, i.e. the caller's argument
+					for i := before; i < len(written); i++ {
+						if p, isP := c.rootValue(written[i]).(*ssa.Parameter); isP && p.Parent() == g {
+							for j, q := range g.Params {
+								if q == p && j < len(call.Call.Args) {
+									written[i] = call.Call.Args[j]
+								}
+							}
+						}
+					}
+				}
+			}
+		})
+		if len(written) == 0 {
+			continue
+		}
+		for _, st := range stores {
+			n++
+			r.Func(fk(fn))
+			ok := false
+			for _, w := range written {
+				if c.rootValue(st.Val) == c.rootValue(w) || sameValue(st.Val, w, 0) {
+					ok = true
+				}
+			}
+			construct := fmt.Sprintf("%s: Topic.tags takes the list that was written", fk(fn))
+			if k := countSame(r, rule, construct); k > 0 {
+				construct = fmt.Sprintf("%s #%d", construct, k+1)
+			}
+			r.Check(ok, rule, construct, c.pos(st), "",
+				"the list cached in the live topic is not the list written to the store (e.g. the request's raw tags instead of the normalised ones): the live topic answers with tags the store does not hold until it is reloaded")
+		}
+	}
+	r.Check(n >= 1, rule, "assignments of Topic.tags next to a store write of Tags", "-", fmt.Sprintf("%d", n), "none: anchor lost")
+}
+
+// checkLoaderCachesEveryRow (C08): the loader of a group topic files every subscription row the
+// store returned into Topic.perUser - the live handlers keep banned or muted users' records, and a
+// reloaded topic that skips some rows treats their owners as strangers. In the function that ranges
+// over Topics.GetSubs, no iteration of the loop avoids the perUser update.
+func (c *Ctx) checkLoaderCachesEveryRow() {
+	r := c.R
+	const rule = "C08.5-loader-caches-every-row"
+	getSubs := c.E().storeIface("TopicsPersistenceInterface", "GetSubs")
+	perUser := c.E().topicField("perUser")
+	if getSubs == nil || perUser == nil {
+		return
+	}
+	n := 0
+	for _, fn := range c.funcsCalling(getSubs, "server") {
+		if !isPtrToNamedRecv(fn, "Topic") {
+			continue
+		}
+		isUpd := func(in ssa.Instruction) bool {
+			mu, ok := in.(*ssa.MapUpdate)
+			return ok && core.IsFieldLoad(perUser)(mu.Map)
+		}
+		var upd ssa.Instruction
+		core.AllInstrs(fn, func(in ssa.Instruction) {
+			if isUpd(in) && upd == nil {
+				upd = in
+			}
+		})
+		if upd == nil {
+			continue
+		}
+		var header *ssa.BasicBlock
+		be := backEdges(fn)
+		for e := range be {
+			h := e.From.Succs[e.Idx]
+			if h.Dominates(upd.Block()) && (header == nil || header.Dominates(h)) {
+				header = h
+			}
+		}
+		if header == nil {
+			continue
+		}
+		n++
+		r.Func(fk(fn))
+		// from the loop header, a path back to the header that avoids the update
+		isBack := func(in ssa.Instruction) bool {
+			b := in.Block()
+			if len(b.Instrs) == 0 || b.Instrs[len(b.Instrs)-1] != in {
+				return false
+			}
+			for i, s := range b.Succs {
+				if s == header && be[core.Edge{From: b, Idx: i}] {
+					return true
+				}
+			}
+			return false
+		}
+		edges := map[core.Edge]bool{}
+		for i, s := range header.Succs {
+			if header.Dominates(s) && s != header {
+				// the edge into the body (the other one leaves the loop)
+				edges[core.Edge{From: header, Idx: i}] = true
+			}
+		}
+		found, w := core.PathFromEdgeAvoiding(fn, edges, isBack, isUpd, nil)
+		r.Check(!found, rule, fk(fn)+": every row returned by the store is filed into perUser", c.pos(upd), "",
+			"an iteration of the loader's loop can go on to the next row"+posOf(c, w)+" without filing the current one: the reloaded topic has no record of a subscriber the store (and the topic before the reload) knows")
+	}
+	r.Check(n >= 1, rule, "loader loops", "-", fmt.Sprintf("%d", n), "none: anchor lost")
+}
+
+// checkOnlineKeyedBySubscribedUser (C10): the online counter belongs to the user a session is
+// attached as (perSessionData.uid, the acting user of the request), which differs from the
+// session's own uid for a root session acting for somebody. A counter step never takes the record
+// of `sess.uid` unconditionally.
+func (c *Ctx) checkOnlineKeyedBySubscribedUser() {
+	r := c.R
+	const rule = "C10.3e-online-keyed-by-subscribed-user"
+	online := c.E().pudField("online")
+	perUser := c.E().topicField("perUser")
+	sessUid := c.E().sessionField("uid")
+	if online == nil || perUser == nil || sessUid == nil {
+		return
+	}
+	n := 0
+	for _, fn := range c.P.ModFuncs {
+		if !core.InPkg(fn, "server") || !isPtrToNamedRecv(fn, "Topic") {
+			continue
+		}
+		steps := 0
+		for _, st := range core.StoresToField(fn, online) {
+			if b, ok := core.Strip(st.Val).(*ssa.BinOp); ok && (b.Op == token.ADD || b.Op == token.SUB) {
+				steps++
+			}
+		}
+		if steps == 0 {
+			continue
+		}
+		core.AllInstrs(fn, func(in ssa.Instruction) {
+			var key ssa.Value
+			switch x := in.(type) {
+			case *ssa.MapUpdate:
+				if core.IsFieldLoad(perUser)(x.Map) {
+					key = x.Key
+				}
+			case *ssa.Lookup:
+				if core.IsFieldLoad(perUser)(x.X) {
+					key = x.Index
+				}
+			}
+			if key == nil {
+				return
+			}
+			n++
+			r.Func(fk(fn))
+			// the key as written (a merge of alternatives is fine; a plain load of Session.uid is not)
+			k := key
+			for {
+				if ct, ok := k.(*ssa.ChangeType); ok {
+					k = ct.X
+					continue
+				}
+				break
+			}
+			f, _ := core.LoadedField(k)
+			construct := fmt.Sprintf("%s: perUser record of the subscribed user", fk(fn))
+			if kk := countSame(r, rule, construct); kk > 0 {
+				construct = fmt.Sprintf("%s #%d", construct, kk+1)
+			}
+			r.Check(f != sessUid, rule, construct, c.pos(in), "",
+				"a function that steps the online counter takes the record of the session's own uid: for a root session attached on behalf of another user the wrong user's counter moves (and a ghost record appears)")
+		})
+	}
+	r.Check(n >= 3, rule, "perUser accesses in functions that step the online counter", "-", fmt.Sprintf("%d", n), "fewer than three: anchor lost")
+}
+
+// checkEnabledComesFromEnCommand (C10): a contact's record carries two flags, online and enabled;
+// "enabled" is what the "+en" command sets. At every call of the constructor of such a record
+// (the function that stores its parameters into perSubsData.online / .enabled) the argument bound
+// to `enabled` is a constant or the test of the command against "en", and the argument bound to
+// `online` is not that test (two adjacent bools are easily transposed).
+func (c *Ctx) checkEnabledComesFromEnCommand() {
+	r := c.R
+	const rule = "C10.4d-enabled-comes-from-en-command"
+	onF := c.field("server", "perSubsData", "online")
+	enF := c.field("server", "perSubsData", "enabled")
+	if onF == nil || enF == nil {
+		return
+	}
+	isEnTest := func(v ssa.Value) bool {
+		return derivesAny(v, func(x ssa.Value) bool {
+			b, ok := x.(*ssa.BinOp)
+			if !ok || (b.Op != token.EQL && b.Op != token.NEQ) {
+				return false
+			}
+			for _, s := range []ssa.Value{b.X, b.Y} {
+				if k, ok := s.(*ssa.Const); ok && k.Value != nil && k.Value.Kind() == constant.String && constant.StringVal(k.Value) == "en" {
+					return true
+				}
+			}
+			return false
+		})
+	}
+	n := 0
+	for _, g := range c.P.ModFuncs {
+		if !core.InPkg(g, "server") || g.Parent() != nil {
+			continue
+		}
+		paramOf := func(f *types.Var) int {
+			for _, st := range core.StoresToField(g, f) {
+				if p, ok := core.Strip(st.Val).(*ssa.Parameter); ok {
+					for i, q := range g.Params {
+						if q == p {
+							return i
+						}
+					}
+				}
+			}
+			// struct literal in a map update: the field value of the literal
+			return -1
+		}
+		io, ie := paramOf(onF), paramOf(enF)
+		if io < 0 || ie < 0 {
+			continue
+		}
+		for _, cs := range c.callersOf(g) {
+			args := cs.Site.Common().Args
+			if cs.Site.Common().IsInvoke() || io >= len(args) || ie >= len(args) {
+				continue
+			}
+			n++
+			r.Func(fk(cs.Caller))
+			_, enConst := args[ie].(*ssa.Const)
+			okEn := enConst || isEnTest(args[ie]) || !isEnTest(args[io])
+			okOn := !isEnTest(args[io])
+			construct := fmt.Sprintf("%s -> %s: enabled from the \"en\" command, online from the status", fk(cs.Caller), g.Name())
+			if k := countSame(r, rule, construct); k > 0 {
+				construct = fmt.Sprintf("%s #%d", construct, k+1)
+			}
+			r.Check(okEn && okOn, rule, construct, c.pos(cs.Site), "",
+				"the test of the command against \"en\" is bound to the record's online flag (and the status to its enabled flag): a contact introduced with ?none+en is stored as online and disabled, and its later 'on' is suppressed as no change")
+		}
+	}
+	r.Check(n >= 1, rule, "calls of the contact-record constructor", "-", fmt.Sprintf("%d", n), "none: anchor lost")
+}
+
+// checkClientMapValuesAssertedSafely (C13): the values of the free-form maps of a message
+// (`head`, and whatever else arrives as map[string]any) are whatever JSON the client sent; a
+// single-value type assertion `v.(bool)` on one of them panics in a goroutine without recover.
+// Every type assertion in package server whose operand comes out of a lookup in a message head
+// (MsgClientPub.Head / MsgServerData.Head) is of the comma-ok form.
+func (c *Ctx) checkClientMapValuesAssertedSafely() {
+	r := c.R
+	const rule = "C13.7-client-map-values-asserted-safely"
+	isAnyMap := func(t types.Type) bool {
+		m, ok := t.Underlying().(*types.Map)
+		if !ok {
+			return false
+		}
+		k, ok := m.Key().Underlying().(*types.Basic)
+		if !ok || k.Kind() != types.String {
+			return false
+		}
+		i, ok := m.Elem().Underlying().(*types.Interface)
+		return ok && i.NumMethods() == 0
+	}
+	// the maps that carry the client's JSON: the head of a published message, as received and as relayed
+	headPub := c.field("server", "MsgClientPub", "Head")
+	headData := c.field("server", "MsgServerData", "Head")
+	if headPub == nil || headData == nil {
+		return
+	}
+	isHead := core.Or(core.IsFieldLoad(headPub), core.IsFieldLoad(headData))
+	fromLookup := func(v ssa.Value) bool {
+		return derivesAny(v, func(x ssa.Value) bool {
+			l, ok := x.(*ssa.Lookup)
+			return ok && isAnyMap(l.X.Type()) && derivesAny(l.X, isHead)
+		})
+	}
+	n, safe := 0, 0
+	for _, fn := range c.P.ModFuncs {
+		if !core.InPkg(fn, "server") {
+			continue
+		}
+		core.AllInstrs(fn, func(in ssa.Instruction) {
+			ta, ok := in.(*ssa.TypeAssert)
+			if !ok || !fromLookup(ta.X) {
+				return
+			}
+			n++
+			if ta.CommaOk {
+				safe++
+				return
+			}
+			r.Func(fk(fn))
+			construct := fmt.Sprintf("%s: value of a free-form map asserted with the comma-ok form", fk(fn))
+			if k := countSame(r, rule, construct); k > 0 {
+				construct = fmt.Sprintf("%s #%d", construct, k+1)
+			}
+			r.Fail(rule, construct, c.pos(ta), "a value taken out of a map[string]any (client-supplied JSON such as a message head) is asserted to "+ta.AssertedType.String()+" without the comma-ok form: any other JSON type panics in a goroutine that has no recover")
+		})
+	}
+	r.Check(safe >= 3, rule, "comma-ok assertions on values of a message head", "-", fmt.Sprintf("%d of %d", safe, n), "fewer than three: anchor lost")
+}
+
+// checkCallTimerStoppedOnlyWhenSettled (C15): the establishment timer is what ends an unanswered
+// call ("missed"). It is stopped only where the call is settled: every path to a Stop has recorded
+// the acceptance (videoCall.acceptedAt), or every path from the Stop frees the call slot
+// (Topic.currentCall = nil). A Stop placed before a step that can still fail leaves an unaccepted
+// call without its timeout.
+func (c *Ctx) checkCallTimerStoppedOnlyWhenSettled() {
+	r := c.R
+	const rule = "C15.3d-timer-stopped-only-when-settled"
+	timerF := c.E().topicField("callEstablishmentTimer")
+	curF := c.E().topicField("currentCall")
+	accF := c.field("server", "videoCall", "acceptedAt")
+	if timerF == nil || curF == nil || accF == nil {
+		return
+	}
+	n := 0
+	for _, fn := range c.P.ModFuncs {
+		if !core.InPkg(fn, "server") {
+			continue
+		}
+		if len(core.StoresToField(fn, timerF)) > 0 {
+			continue // where the timer is created (and parked)
+		}
+		isAccept := func(in ssa.Instruction) bool {
+			st, ok := in.(*ssa.Store)
+			if !ok {
+				return false
+			}
+			f, _ := core.FieldOfAddr(st.Addr)
+			return f == accF
+		}
+		isFree := func(in ssa.Instruction) bool {
+			st, ok := in.(*ssa.Store)
+			if !ok {
+				return false
+			}
+			f, _ := core.FieldOfAddr(st.Addr)
+			return f == curF && core.IsNil(core.Strip(st.Val))
+		}
+		core.AllInstrs(fn, func(in ssa.Instruction) {
+			call, ok := in.(*ssa.Call)
+			if !ok || calleeFullName(call) != "(*time.Timer).Stop" || len(call.Call.Args) == 0 || !core.IsFieldLoad(timerF)(call.Call.Args[0]) {
+				return
+			}
+			n++
+			r.Func(fk(fn))
+			unaccepted, _ := core.PathAvoiding(fn, nil, func(i2 ssa.Instruction) bool { return i2 == in }, isAccept, nil)
+			notFreed, w := core.PathAvoiding(fn, in, core.IsReturn, isFree, nil)
+			construct := fmt.Sprintf("%s: establishment timer stopped only when the call is settled", fk(fn))
+			if k := countSame(r, rule, construct); k > 0 {
+				construct = fmt.Sprintf("%s #%d", construct, k+1)
+			}
+			r.Check(!unaccepted || !notFreed, rule, construct, c.pos(in), "",
+				"the timer is stopped on a path that has not recorded the acceptance, and the function can return"+posOf(c, w)+" without freeing the call slot: an unaccepted call is left without its timeout and the topic stays busy")
+		})
+	}
+	r.Check(n >= 2, rule, "stops of the establishment timer", "-", fmt.Sprintf("%d", n), "fewer than two: anchor lost")
+}
+
+// checkFailureReturnCarriesTheFailure (C18): in the store layer, inside the failure branch of a
+// step (`if err = adp.Step(); err != nil { ... }`) the error returned to the caller is that step's
+// error (or one that cannot be nil), not a variable reassigned by the compensation in the branch
+// (`if err = adp.Undo(); err != nil { log }; return nil, err`): when the compensation succeeds the
+// caller is told the operation succeeded.
+func (c *Ctx) checkFailureReturnCarriesTheFailure() {
+	r := c.R
+	const rule = "C18.5-failure-return-carries-the-failure"
+	errT := types.Universe.Lookup("error").Type()
+	n := 0
+	for _, fn := range c.P.ModFuncs {
+		if !core.InPkg(fn, "server/store") || fn.Parent() != nil {
+			continue
+		}
+		ei := errIndex(fn.Signature)
+		if ei < 0 {
+			continue
+		}
+		core.AllInstrs(fn, func(in ssa.Instruction) {
+			ret, ok := in.(*ssa.Return)
+			if !ok {
+				return
+			}
+			res := ret.Results[ei]
+			var failed []ssa.Value
+			for b := ret.Block(); b != nil; b = b.Idom() {
+				d := b.Idom()
+				if d == nil || len(d.Instrs) == 0 {
+					continue
+				}
+				ifi, isIf := d.Instrs[len(d.Instrs)-1].(*ssa.If)
+				if !isIf {
+					continue
+				}
+				a := core.NormCond(ifi.Cond)
+				if a.Op != token.EQL {
+					continue
+				}
+				var e ssa.Value
+				switch {
+				case core.IsNil(a.Y) && types.Identical(a.X.Type(), errT):
+					e = a.X
+				case core.IsNil(a.X) && types.Identical(a.Y.Type(), errT):
+					e = a.Y
+				}
+				if e == nil {
+					continue
+				}
+				idx := 1
+				if a.Negated {
+					idx = 0
+				}
+				if idx < len(d.Succs) && d.Succs[idx].Dominates(ret.Block()) && len(d.Succs[idx].Preds) == 1 {
+					failed = append(failed, e)
+				}
+			}
+			if len(failed) == 0 {
+				return
+			}
+			n++
+			r.Func(fk(fn))
+			ok2 := false
+			for _, e := range failed {
+				if res == e {
+					ok2 = true
+				}
+			}
+			if known, isNil := errorsNewNonNil(res); known && !isNil {
+				ok2 = true
+			}
+			if _, isG := loadedGlobal(res); isG {
+				ok2 = true
+			}
+			if _, isMI := res.(*ssa.MakeInterface); isMI {
+				ok2 = true
+			}
+			// the innermost failure decides: returning the error of a nested failed step is fine too
+			if _, isK := res.(*ssa.Const); isK && core.IsNil(res) {
+				ok2 = false
+			}
+			construct := fmt.Sprintf("%s: a return inside a failure branch yields the failure", fk(fn))
+			if k := countSame(r, rule, construct); k > 0 {
+				construct = fmt.Sprintf("%s #%d", construct, k+1)
+			}
+			r.Check(ok2, rule, construct, c.pos(ret), "",
+				"inside the failure branch of a step the function returns an error variable that the compensation reassigned (or nil): when the compensation succeeds the caller is told that the operation succeeded")
+		})
+	}
+	r.Check(n >= 5, rule, "returns inside failure branches of the store layer", "-", fmt.Sprintf("%d", n), "fewer than five: anchor lost")
+}
+
+// checkParseP2PZeroOnError (C20): a malformed p2p name decodes to "no such id": every return of
+// ParseP2P that may carry an error returns the zero id twice (callers that ignore the error get
+// nothing to act on).
+func (c *Ctx) checkParseP2PZeroOnError() {
+	r := c.R
+	const rule = "C20.4g-p2p-ids-zero-on-error"
+	fn := c.ssaFn("server/store/types", "ParseP2P")
+	if fn == nil {
+		return
+	}
+	r.Func(fk(fn))
+	ei := errIndex(fn.Signature)
+	// the only non-zero ids are the ones read from the decoded bytes (binary Uint64): they must not
+	// flow to a return whose error may be non-nil, unless that error is the decoder's own success-path
+	// value (returned together with ids read behind the byte-count test)
+	n := 0
+	core.AllInstrs(fn, func(in ssa.Instruction) {
+		ret, ok := in.(*ssa.Return)
+		if !ok || ei < 0 {
+			return
+		}
+		errV := ret.Results[ei]
+		if core.IsNil(core.Strip(errV)) {
+			return
+		}
+		known, isNil := errorsNewNonNil(core.Strip(errV))
+		sure := known && !isNil
+		if !sure {
+			// a merge: does any edge carry a made error?
+			if phi, ok := errV.(*ssa.Phi); ok {
+				for _, e := range phi.Edges {
+					if k, n2 := errorsNewNonNil(core.Strip(e)); k && !n2 {
+						sure = true
+					}
+				}
+			}
+		}
+		if !sure {
+			return
+		}
+		n++
+		bad := false
+		for i, res := range ret.Results {
+			if i == ei {
+				continue
+			}
+			nonZero := derivesAny(res, func(x ssa.Value) bool {
+				call, ok := x.(*ssa.Call)
+				return ok && strings.HasSuffix(calleeFullName(call), "Uint64")
+			})
+			if nonZero {
+				// a merge is fine when the id edge pairs with the nil-error edge; checked edge-wise
+				rp, isP := res.(*ssa.Phi)
+				ep, isEP := errV.(*ssa.Phi)
+				if isP && isEP && rp.Block() == ep.Block() && len(rp.Edges) == len(ep.Edges) {
+					for j := range rp.Edges {
+						idEdge := derivesAny(rp.Edges[j], func(x ssa.Value) bool {
+							call, ok := x.(*ssa.Call)
+							return ok && strings.HasSuffix(calleeFullName(call), "Uint64")
+						})
+						if k, n2 := errorsNewNonNil(core.Strip(ep.Edges[j])); idEdge && k && !n2 {
+							bad = true
+						}
+					}
+				} else {
+					bad = true
+				}
+			}
+		}
+		r.Check(!bad, rule, fmt.Sprintf("%s: error return #%d yields zero ids", fk(fn), n), c.pos(ret), "",
+			"ParseP2P can return an error together with ids read from the (partially) decoded bytes: callers that ignore the error act on somebody's id")
+	})
+	r.Check(n >= 1, rule, "error returns of ParseP2P", "-", fmt.Sprintf("%d", n), "none: anchor lost")
 }
